@@ -24,7 +24,8 @@ EXTENDS Naturals, Sequences, FiniteSets, TLC
 CONSTANTS Own, Targets, RouterNIC,        \* our MAC, client MACs, the MAC of NICInfo.RouterAddr4
           RouterMACs,                     \* MACs of IPv6 routers on the LAN
           HostLLA, AllNodes,              \* our link-local address, ff02::1
-          LLAs, GUAs, V4s, NoIP,          \* target address classes: link-local, global, IPv4, invalid (address-less)
+          LLAs, GUAs, V4s, NoIP,          \* target address classes: link-local unicast; every OTHER kind of IPv6 address (global,
+                                          \*   unique local, unspecified ::, loopback, multicast, IPv4-mapped); IPv4; invalid (address-less)
           RouterIPs,                      \* link-local addresses of routers
           NilMAC,
           SafeWake                        \* TRUE: the RA branch does not close an already closed channel (the repaired mechanism)
@@ -76,6 +77,20 @@ StartHuntM(m, ip) ==
           /\ loops' = Append(loops, [mac |-> m, dst |-> IF ip = NoIP THEN AllNodes ELSE ip,
                                      pc |-> "check", list |-> {}, woken |-> FALSE])
           /\ ev' = [kind |-> "start", mac |-> m, ip |-> ip, err |-> FALSE, spawned |-> 1]
+
+\* n overlapping StartHunt(m, ip) calls observed together: the mutex serialises them
+ConcStartM(m, ip, n) ==
+  /\ UNCHANGED <<routers, raCount, closed, panicked>> /\ out' = <<>>
+  /\ IF ip \in V4s
+     THEN /\ UNCHANGED <<hunt, loops>>
+          /\ ev' = [kind |-> "cstart", mac |-> m, ip |-> ip, n |-> n, errs |-> n, spawned |-> 0]
+     ELSE IF ip \in GUAs \/ m \in HuntMacs
+     THEN /\ UNCHANGED <<hunt, loops>>
+          /\ ev' = [kind |-> "cstart", mac |-> m, ip |-> ip, n |-> n, errs |-> 0, spawned |-> 0]
+     ELSE /\ hunt' = Append(hunt, [mac |-> m, ip |-> ip])
+          /\ loops' = Append(loops, [mac |-> m, dst |-> IF ip = NoIP THEN AllNodes ELSE ip,
+                                     pc |-> "check", list |-> {}, woken |-> FALSE])
+          /\ ev' = [kind |-> "cstart", mac |-> m, ip |-> ip, n |-> n, errs |-> 0, spawned |-> 1]
 
 \* AddrList.Del: by MAC, order of the others preserved
 StopHuntM(m, ip) ==
@@ -157,13 +172,15 @@ NoPre == [hunted |-> FALSE, effective |-> FALSE, v4 |-> FALSE, snap |-> {}, snap
 StartHuntR(m, ip, n) ==
   /\ pre' = [NoPre EXCEPT !.hunted = m \in refHunt, !.effective = Effective(ip), !.v4 = ip \in V4s, !.mac = m]
   /\ refHunt' = IF Effective(ip) THEN refHunt \cup {m} ELSE refHunt
-  /\ rl' = rl \o [i \in 1..n |-> [mac |-> m, alive |-> TRUE, snap |-> {}, snapClosed |-> TRUE, fresh |-> FALSE]]
+  /\ rl' = rl \o [i \in 1..n |-> [mac |-> m, alive |-> TRUE, snap |-> {}, snapClosed |-> TRUE, fresh |-> FALSE, cur |-> TRUE]]
   /\ UNCHANGED <<refClosed>>
 
 StopHuntR(m, ip) ==
   /\ pre' = [NoPre EXCEPT !.hunted = m \in refHunt, !.effective = Effective(ip), !.mac = m]
   /\ refHunt' = IF Effective(ip) THEN refHunt \ {m} ELSE refHunt
-  /\ UNCHANGED <<refClosed, rl>>
+  \* the loops spawned for the hunt that ends here no longer count as loops of the current hunt of m
+  /\ rl' = [l \in 1..Len(rl) |-> IF Effective(ip) /\ rl[l].mac = m THEN [rl[l] EXCEPT !.cur = FALSE] ELSE rl[l]]
+  /\ UNCHANGED <<refClosed>>
 
 CloseR == refClosed' = TRUE /\ pre' = NoPre /\ UNCHANGED <<refHunt, rl>>
 
@@ -187,6 +204,7 @@ ObserveRouters == refRouters' = {r \in RouterIPs : routers'[r] # NilMAC}
 (* actions *)
 
 StartHunt(m, ip)   == StartHuntM(m, ip) /\ StartHuntR(m, ip, ev'.spawned) /\ ObserveRouters
+ConcStart(m, ip, n) == ConcStartM(m, ip, n) /\ StartHuntR(m, ip, ev'.spawned) /\ ObserveRouters
 StopHunt(m, ip)    == StopHuntM(m, ip) /\ StopHuntR(m, ip) /\ ObserveRouters
 Close              == CloseM /\ CloseR /\ ObserveRouters
 LoopCheck(l)       == LoopCheckM(l) /\ LoopCheckR(l) /\ ObserveRouters
@@ -216,10 +234,15 @@ P_OnlyAfterRouter == \A f \in Forged : refRouters # {}
 \* "(a learned router's address bound to our MAC, override flag set, hop limit 255)"
 P_NAFields == \A f \in Forged : /\ f.tgt \in refRouters /\ f.tlla = Own /\ f.over /\ f.hop = 255
 \* "StartHunt rejects IPv4 and ignores non-link-local targets"
-P_StartFilters == ev.kind = "start" => /\ ev.err = pre.v4
-                                        /\ (~pre.effective => ev.spawned = 0)
+\* (every IPv6 address that is not link-local unicast -- global, unique local, ::, ::1, multicast, IPv4-mapped -- is ignored)
+P_StartFilters == /\ ev.kind = "start" => /\ ev.err = pre.v4
+                                           /\ (~pre.effective => ev.spawned = 0)
+                  /\ ev.kind = "cstart" => /\ ev.errs = (IF pre.v4 THEN ev.n ELSE 0)
+                                            /\ (~pre.effective => ev.spawned = 0)
 \* "is idempotent per MAC"
-P_Idempotent == ev.kind = "start" /\ pre.effective /\ ~refClosed => ev.spawned = (IF pre.hunted THEN 0 ELSE 1)
+\* (also for overlapping calls: one hunt has one loop)
+P_Idempotent == /\ ev.kind \in {"start", "cstart"} /\ pre.effective /\ ~refClosed => ev.spawned = (IF pre.hunted THEN 0 ELSE 1)
+                /\ ~refClosed => \A m \in Targets : Cardinality({l \in 1..Len(rl) : rl[l].mac = m /\ rl[l].cur}) <= 1
 P_ListMatches == refClosed \/ (HuntMacs = refHunt /\ Cardinality(HuntMacs) = Len(hunt))   \* (the statement is silent about the list after Close)
 \* "after StopHunt or Close no further forged advertisement reaches that host"; reading: at most the
 \* send round already past its check
